@@ -573,6 +573,7 @@ func checkC05(c *Check) {
 	c05FuturesByValue(c, "R11")
 	c05CloseCloses(c, "R12")
 	c05WaitsWithCallersContext(c, "R13")
+	c05OverrideDirective(c, "R14")
 }
 
 // R9: a policy's per-message object outlives one destination: the remote target calls PrepareDomain once per
